@@ -17,7 +17,7 @@ pub fn cases(mode: &'static str, recvs: &'static BTreeMap<&'static str, RecvDesc
     // fault-free run is clean (mistakes are welcome: faults next to mistakes are the point)
     let mut per_receiver: BTreeMap<String, usize> = BTreeMap::new();
     let mut i = 0u64;
-    while i < 6000 && per_receiver.values().filter(|n| **n >= 4).count() < gen::receiver_names(mode).len() {
+    while i < 6000 && per_receiver.values().filter(|n| **n >= 4).count() < gen::receiver_names(mode).len() + if mode == "map" { 0 } else { gen::ELEM_RECEIVERS.len() } {
         let mut sc = gen::generate(run_seed(0xC0FFEE, i), mode, recvs);
         i += 1;
         let n = per_receiver.entry(sc.receiver.clone()).or_insert(0);
@@ -34,7 +34,7 @@ pub fn cases(mode: &'static str, recvs: &'static BTreeMap<&'static str, RecvDesc
         let mut keys: Vec<Key> = Vec::new();
         for c in &base.log {
             let key = match (c.item, c.hook.as_str()) {
-                (Some(id), "from_meta") | (Some(id), "with") | (Some(id), "from_string") => Some(Key::Item(id)),
+                (Some(id), "from_meta") | (Some(id), "with") | (Some(id), "from_string") | (Some(id), "from_field") => Some(Key::Item(id)),
                 (Some(id), "map") | (Some(id), "and_then") => Some(Key::Post(id)),
                 (None, "from_none") | (None, "container_from_none") => None,
                 (None, h) => Some(Key::Site(c.site, h.to_string())),
